@@ -59,8 +59,54 @@ def _one(prop, name, patch, expect, variant):
         shutil.rmtree(d, ignore_errors=True)
 
 
+def clang_analyzer_crossref():
+    """Cross-reference (C10 only): run clang's static analyzer (core, unix, deadcode) on the C library from a scratch
+    directory and compare its dead-store reports on I/O statuses with what C10.R4 reports/allow-lists.  The hits are only
+    compared, never used as a verdict."""
+    import re
+    d = tempfile.mkdtemp(prefix="vp-clang-sa-")
+    try:
+        p = subprocess.run(["clang", "--analyze", "-Xanalyzer", "-analyzer-output=text", "-Xanalyzer",
+                            "-analyzer-checker=core,unix,deadcode", "-I" + os.path.join(core.REPO, "c/include"),
+                            "-I/usr/include/hdf5/serial", os.path.join(core.REPO, "c/lib/rf_write_hdf5.c")],
+                           cwd=d, stdout=subprocess.PIPE, stderr=subprocess.STDOUT, timeout=300)
+        out = p.stdout.decode("utf-8", "replace")
+    finally:
+        shutil.rmtree(d, ignore_errors=True)
+    hits = []
+    for l in out.splitlines():
+        m = re.match(r".*?:(\d+):\d+: warning: (.*) \[(.*)\]", l)
+        if m and "insecureAPI" not in m.group(3):
+            hits.append({"line": int(m.group(1)), "message": m.group(2), "checker": m.group(3)})
+    from .props import c10
+    r4 = c10.r4_no_lost_status()
+    known = " ".join(a["construct"] for a in r4.allow) + " ".join(f.construct for f in r4.findings)
+    from . import cfront
+    tu = cfront.lib()
+    res = []
+    for h in hits:
+        fn = None
+        for name, f in tu.functions.items():
+            if f.line <= h["line"] <= tu.line_of(f.end):
+                fn = name
+        covered = fn is not None and fn in known if "status" in h["message"] else None
+        res.append(dict(h, function=fn, reported_or_allowlisted_by_C10_R4=covered))
+    return res
+
+
 def run(prop):
     info = {"variants": [], "failed": []}
+    if prop == "C10":
+        try:
+            info["clang_analyzer_crossref"] = clang_analyzer_crossref()
+            for h in info["clang_analyzer_crossref"]:
+                print("   clang --analyze: line %s %s [%s] in %s -> covered by C10.R4: %s" % (
+                    h["line"], h["message"], h["checker"], h["function"], h["reported_or_allowlisted_by_C10_R4"]))
+                if h["reported_or_allowlisted_by_C10_R4"] is False:
+                    info["failed"].append("clang analyzer reports a dead I/O status store that C10.R4 neither reports nor "
+                                          "allow-lists: line %s" % h["line"])
+        except Exception as e:  # the cross-reference is optional
+            info["clang_analyzer_crossref"] = "not available: %s" % e
     todo = []
     for mp in sorted(glob.glob(os.path.join(core.VERIF, "seeded", "*", "meta.json"))):
         with open(mp) as f:
